@@ -642,7 +642,8 @@ Print Assumptions C20_bqm_change_vartype_energy.
    Proofs/ChkC20CqmFacts.v).  Inside a module because Model/Expr.v and
    Model/Adj.v define list helpers of the same name; the module is exported.
    ------------------------------------------------------------------------ *)
-From Dimod Require Model.Expr Model.ExprOps Model.ChkC20Cqm Proofs.ExprFacts Proofs.ChkC20CqmFacts.
+From Dimod Require Model.Expr Model.ExprOps Model.ChkC20Cqm Proofs.ExprFacts Proofs.ChkC20CqmFacts
+  Model.FixCopy Proofs.FixCopyFacts Proofs.C20FixEnergy.
 Module Cqm.
 Import Dimod.Model.Expr Dimod.Model.ExprOps Dimod.Model.ChkC20Cqm Dimod.Proofs.ExprFacts Dimod.Proofs.ChkC20CqmFacts.
 Local Open Scope Qc_scope.
@@ -731,13 +732,86 @@ Example C20_example_scale_flip :
   /\ e_lin (mc_e (con_scale (qc (-2) 1) c)) = [qc (-4) 1; qc (-6) 1].
 Proof. vm_compute. repeat split; reflexivity. Qed.
 
+
+(* ---------- fixing = evaluating at the assignment (round 6): the VALUES of the three fixing paths ---------- *)
+(* Expression::fix_variable (the variable leaves this expression only): the energy at any sample is the energy of the
+   source with v := a; afterwards the value does not depend on the sample at v *)
+Theorem C20_expr_fix_variable_energy :
+  forall n e v a s, ExprInv n e -> energy (abs_expr (m_fix_variable v a e)) s = energy (abs_expr e) (upd s v a).
+Proof. exact C20FixEnergy.fix_variable_energy. Qed.
+Print Assumptions C20_expr_fix_variable_energy.
+
+Theorem C20_expr_fix_variable_energy_indep :
+  forall n e v a s x, ExprInv n e ->
+    energy (abs_expr (m_fix_variable v a e)) (upd s v x) = energy (abs_expr (m_fix_variable v a e)) s.
+Proof. exact C20FixEnergy.fix_variable_energy_indep. Qed.
+Print Assumptions C20_expr_fix_variable_energy_indep.
+
+(* the copying path: the C20 model fix_expr IS the C03 mirror of fix_variables_expr (Model/FixCopy.v) ... *)
+Theorem C20_fix_expr_is_fix_variables_expr :
+  forall n vt' o2n a e, ExprInv n e ->
+    fix_expr vt' o2n a e = FixCopy.fix_variables_expr vt' e o2n (C20FixEnergy.asg_list n a).
+Proof. exact C20FixEnergy.fix_expr_is_fix_variables_expr. Qed.
+Print Assumptions C20_fix_expr_is_fix_variables_expr.
+
+(* ... so its energy at a sample of the NEW model is the energy of the source at that sample extended by the fixed
+   values (side condition: where add_quadratic_back folds a self interaction of a BINARY/SPIN variable the sample is
+   in the domain; it is void for samples that respect the new vartypes) *)
+Theorem C20_fix_expr_energy :
+  forall n n' vt' o2n a e s', ExprInv n e -> FixCopyFacts.O2nOk n' o2n ->
+    FixCopyFacts.FoldCond vt' s' (e_vars e) o2n (e_quad e) ->
+    energy (abs_expr (fix_expr vt' o2n a e)) s'
+    = energy (abs_expr e) (fun old => match nth old o2n None with None => a old | Some k => s' k end).
+Proof. exact C20FixEnergy.fix_expr_energy. Qed.
+Print Assumptions C20_fix_expr_energy.
+
+(* the whole model through fix_variables(first, last, assignment): objective and every constraint *)
+Theorem C20_fix_variables_copy_energy :
+  forall vs asg q s',
+    let n := length (m_info q) in
+    let q' := cqm_fix_variables vs asg q in
+    let lift := fun old => match nth old (old_to_new n vs) None with None => asg_of vs asg old | Some k => s' k end in
+    respects (vt_info (m_info q')) s' ->
+    ExprInv n (m_obj q) -> cons_ok n (m_cons q) ->
+    energy (abs_expr (m_obj q')) s' = energy (abs_expr (m_obj q)) lift
+    /\ map (fun k => energy (abs_expr (mc_e k)) s') (m_cons q')
+       = map (fun k => energy (abs_expr (mc_e k)) lift) (m_cons q).
+Proof. exact C20FixEnergy.cqm_fix_variables_energy. Qed.
+Print Assumptions C20_fix_variables_copy_energy.
+
+(* the index-level op MFixVariable of ExprOps.mstep (substitute_variable(v, 0, a); remove_variable(v), indices above v
+   drop by one): objective and every constraint *)
+Theorem C20_mstep_fix_variable_energy :
+  forall q v a s, (v < length (m_info q))%nat ->
+    ExprInv (length (m_info q)) (m_obj q) -> cons_ok (length (m_info q)) (m_cons q) ->
+    let q' := mstep q (MFixVariable v a) in
+    let lift := upd (fun u => s (shift v u)) v a in
+    energy (abs_expr (m_obj q')) s = energy (abs_expr (m_obj q)) lift
+    /\ map (fun k => energy (abs_expr (mc_e k)) s) (m_cons q')
+       = map (fun k => energy (abs_expr (mc_e k)) lift) (m_cons q).
+Proof. exact C20FixEnergy.mstep_fix_variable_energy. Qed.
+Print Assumptions C20_mstep_fix_variable_energy.
+
+(* non-trivial data: 2 x0 + 3 x1 + 5 x0 x1 + 7 x1 x2 - 1 with x1 := 1/2 through both paths *)
+Example C20_example_fix_paths :
+  let vt := fun _ : nat => INTEGER in
+  let e := m_add_offset (qc (-1) 1) (m_add_quadratic vt 1 2 (qc 7 1) (m_add_quadratic vt 0 1 (qc 5 1)
+             (m_add_linear 1 (qc 3 1) (m_add_linear 0 (qc 2 1) e_empty)))) in
+  let s := fun w : nat => match w with 0%nat => qc 3 1 | 1%nat => qc 100 1 | _ => qc (-2) 1 end in
+  let s' := fun w : nat => match w with 0%nat => qc 3 1 | _ => qc (-2) 1 end in
+  Qc_eqb (energy (abs_expr (m_fix_variable 1 (qc 1 2) e)) s) (energy (abs_expr e) (upd s 1%nat (qc 1 2))) = true
+  /\ Qc_eqb (energy (abs_expr (m_fix_variable 1 (qc 1 2) e)) s) (qc 7 1) = true
+  /\ Qc_eqb (energy (abs_expr (fix_expr vt [Some 0%nat; None; Some 1%nat] (fun _ => qc 1 2) e)) s') (qc 7 1) = true.
+Proof. vm_compute. repeat split; reflexivity. Qed.
+
 End Cqm.
 Export Cqm.
 
 (* ---------- 9. the native state of cyDiscreteQuadraticModel (Model/DqmNative.v) ----------
    adj_ (per variable the sorted vector of neighbouring variables), case_starts_ and the case-level BQM under the calls
    reachable from Python; the worker's py_dqm stream compares all three after every call (Model/ChkC20Dqm.v). *)
-From Dimod Require Model.DqmNative Proofs.DqmNativeFacts Proofs.DqmRoundTrip Proofs.DqmReads Proofs.DqmReadBack.
+From Dimod Require Model.DqmNative Proofs.DqmNativeFacts Proofs.DqmRoundTrip Proofs.DqmReads Proofs.DqmReadBack
+  Proofs.DqmRoundTripId Proofs.DqmEnergyFull Proofs.DqmOneHot.
 Module Dqm.
 Import Dimod.Model.DqmNative Dimod.Proofs.DqmNativeFacts.
 Local Open Scope nat_scope.
@@ -901,6 +975,125 @@ Theorem C20_dqm_set_quadratic_case_read_back :
     /\ (exists l, get_quadratic d' v u = Some l /\ In (cv, cu, b) l).
 Proof. exact DqmReadBack.set_quadratic_case_read_back. Qed.
 Print Assumptions C20_dqm_set_quadratic_case_read_back.
+
+
+(* ---------- 9b. the rebuild loses nothing and changes no bias (round 6) ---------- *)
+(* _from_numpy_vectors(to_numpy_vectors()) on a state satisfying the invariant: the rebuilt case-level BQM is EQUAL to
+   the old one - linear vector, every neighbourhood (order and biases, zero biases included), offset, vartypes *)
+Theorem C20_dqm_round_trip_bqm_identity : forall d, DInv d -> d_b (round_trip d) = d_b d.
+Proof. exact DqmRoundTripId.round_trip_b_identity. Qed.
+Print Assumptions C20_dqm_round_trip_bqm_identity.
+
+Theorem C20_dqm_round_trip_case_starts : forall d, d_st (round_trip d) = d_st d.
+Proof. exact DqmRoundTripId.round_trip_st. Qed.
+Print Assumptions C20_dqm_round_trip_case_starts.
+
+(* the whole rebuilt object: old BQM, old case starts, adj_ = the projection of the case interactions *)
+Theorem C20_dqm_round_trip_whole_state :
+  forall d, DInv d -> round_trip d = mkD (d_b d) (d_st d) (DqmRoundTrip.afc (d_st d) (d_nvars d) (d_b d)).
+Proof. exact DqmRoundTripId.round_trip_eq. Qed.
+Print Assumptions C20_dqm_round_trip_whole_state.
+
+Theorem C20_dqm_round_trip_idempotent : forall d, DInv d -> round_trip (round_trip d) = round_trip d.
+Proof. exact DqmRoundTripId.round_trip_idempotent. Qed.
+Print Assumptions C20_dqm_round_trip_idempotent.
+
+(* it is the identity exactly when adj_ recorded no pair of variables without a case interaction (an all-zero dense
+   set_quadratic records such a pair) *)
+Theorem C20_dqm_round_trip_identity_iff_tight :
+  forall d, DInv d ->
+    (round_trip d = d <->
+     forall u v, u < d_nvars d -> In v (d_nb d u) ->
+       exists ci w, d_start d u <= ci /\ ci < d_start d u + d_ncases d u
+                    /\ In w (map fst (nb (d_b d) ci)) /\ v = var_of d w).
+Proof. exact DqmRoundTripId.round_trip_identity_iff_tight. Qed.
+Print Assumptions C20_dqm_round_trip_identity_iff_tight.
+
+Theorem C20_dqm_round_trip_adjacency_subset :
+  forall d u v, DInv d -> u < d_nvars d -> In v (d_nb (round_trip d) u) -> In v (d_nb d u).
+Proof. exact DqmEnergyFull.round_trip_adj_subset. Qed.
+Print Assumptions C20_dqm_round_trip_adjacency_subset.
+
+(* energies reads the FULL case-level lower triangle: the pairs adj_ does not record have no stored bias *)
+Theorem C20_dqm_unrecorded_pair_has_no_bias :
+  forall d u v cu cv, DInv d -> u < d_nvars d -> v < d_nvars d -> cu < d_ncases d u -> cv < d_ncases d v ->
+    ~ In v (d_nb d u) -> nb_get (cs d v cv) (nb (d_b d) (cs d u cu)) = None.
+Proof. exact DqmEnergyFull.unrecorded_pair_zero. Qed.
+Print Assumptions C20_dqm_unrecorded_pair_has_no_bias.
+
+Theorem C20_dqm_energy_is_case_polynomial :
+  forall d s, DInv d -> (forall u, u < d_nvars d -> nth u s 0%nat < d_ncases d u) ->
+    d_energy d s =
+    (off (d_b d)
+     + qsum (map (fun u => linear (d_b d) (cs d u (nth u s 0%nat))
+                           + qsum (map (fun v => quadratic (d_b d) (cs d u (nth u s 0%nat)) (cs d v (nth v s 0%nat)))
+                                       (seq 0 u)))
+                 (seq 0 (d_nvars d))))%Qc.
+Proof. exact DqmEnergyFull.d_energy_full. Qed.
+Print Assumptions C20_dqm_energy_is_case_polynomial.
+
+Theorem C20_dqm_round_trip_keeps_energies :
+  forall d s, DInv d -> (forall u, u < d_nvars d -> nth u s 0%nat < d_ncases d u) ->
+    d_energy (round_trip d) s = d_energy d s.
+Proof. exact DqmEnergyFull.round_trip_energy. Qed.
+Print Assumptions C20_dqm_round_trip_keeps_energies.
+
+(* get_quadratic after the rebuild: every answer is the old answer; a pair that is gone had nothing to list *)
+Theorem C20_dqm_round_trip_keeps_get_quadratic :
+  forall d u v l, DInv d -> u < d_nvars d ->
+    get_quadratic (round_trip d) u v = Some l -> get_quadratic d u v = Some l.
+Proof. exact DqmEnergyFull.round_trip_get_quadratic. Qed.
+Print Assumptions C20_dqm_round_trip_keeps_get_quadratic.
+
+Theorem C20_dqm_round_trip_drops_only_empty_pairs :
+  forall d u v l, DInv d -> u < d_nvars d -> v < d_nvars d ->
+    get_quadratic d u v = Some l -> get_quadratic (round_trip d) u v = None -> l = [].
+Proof. exact DqmEnergyFull.round_trip_get_quadratic_dropped. Qed.
+Print Assumptions C20_dqm_round_trip_drops_only_empty_pairs.
+
+(* the COO dump of to_numpy_vectors: every entry is a stored interaction written (row, col) with col < row, and every
+   stored interaction is listed exactly once, with its bias *)
+Theorem C20_dqm_coo_dump_entries :
+  forall b t, In t (to_coo b) ->
+    fst (fst t) < nvars b /\ snd (fst t) < fst (fst t) /\ In (snd (fst t)) (map fst (nb b (fst (fst t)))).
+Proof. exact DqmRoundTrip.to_coo_in. Qed.
+Print Assumptions C20_dqm_coo_dump_entries.
+
+Theorem C20_dqm_coo_dump_lists_each_interaction_once :
+  forall b x y, Inv b -> y < x -> x < nvars b ->
+    filter (fun t => same_pair x y (fst (fst t)) (snd (fst t))) (to_coo b)
+    = match nb_get y (nb b x) with Some bias => [(x, y, bias)] | None => [] end.
+Proof. exact DqmRoundTripId.to_coo_hits. Qed.
+Print Assumptions C20_dqm_coo_dump_lists_each_interaction_once.
+
+(* energies is the polynomial of the case-level BQM (Adj.abs) at the one-hot encoding of the sample *)
+Theorem C20_dqm_energy_is_onehot_polynomial :
+  forall d s, DInv d -> (forall u, u < d_nvars d -> nth u s 0%nat < d_ncases d u) ->
+    d_energy d s
+    = energy (abs (d_b d))
+             (fun ci => if (ci =? cs d (var_of d ci) (nth (var_of d ci) s 0%nat))%nat then 1%Qc else 0%Qc).
+Proof. exact DqmOneHot.d_energy_onehot. Qed.
+Print Assumptions C20_dqm_energy_is_onehot_polynomial.
+
+(* unconditional form: on every state reachable from the empty DQM by accepted calls the rebuild loses nothing *)
+Theorem C20_dqm_reachable_round_trip_loses_nothing :
+  forall ops d, DqmRoundTrip.run_all d_empty ops = Some d ->
+    d_b (dstep d DRoundTrip) = d_b d /\ d_st (dstep d DRoundTrip) = d_st d
+    /\ (forall s, (forall u, u < d_nvars d -> nth u s 0%nat < d_ncases d u) ->
+                  d_energy (dstep d DRoundTrip) s = d_energy d s)
+    /\ (forall u v l, u < d_nvars d -> get_quadratic (dstep d DRoundTrip) u v = Some l -> get_quadratic d u v = Some l).
+Proof. exact DqmOneHot.reachable_round_trip_loses_nothing. Qed.
+Print Assumptions C20_dqm_reachable_round_trip_loses_nothing.
+
+(* both sides of the iff occur: a stored interaction survives the rebuild as it is, a pair recorded by an all-zero
+   dense set_quadratic is forgotten (the state still satisfies the invariant) *)
+Example C20_dqm_round_trip_examples :
+  let d0 := dstep (dstep d_empty (DAddVar 2)) (DAddVar 3) in
+  let d1 := dstep d0 (DSetQuadCase 1 2 0 1 (qc 3 2)) in
+  let d2 := dstep d0 (DSetQuadDense 0 1 (repeat 0%Qc 6)) in
+  (dinv_b d1 = true /\ round_trip d1 = d1 /\ d_nb d1 0 = [1%nat])
+  /\ (dinv_b d2 = true /\ d_nb d2 0 = [1%nat] /\ d_nb (round_trip d2) 0 = [] /\ d_b (round_trip d2) = d_b d2).
+Proof. vm_compute. repeat split. Qed.
 
 End Dqm.
 Export Dqm.
